@@ -185,6 +185,24 @@ theorem only_received_cells_refresh (c : Cfg) (s : Node) :
     (∀ ev, ev.isLocal = true → QuietStep s (s.step c ev)) ∧ QuietStep s (s.tick c) :=
   ⟨fun ev h => QuietStep.step c s ev h, QuietStep.tick c s⟩
 
+/-- **A received cell only refreshes its own circuit.**  `process_cell` for a cell under id `id`:
+    relay path — the only `last_activity` that may change is that of the entry stored under the paired id (the opposite
+    route); circuits and exit sockets are untouched.  Local path — only a circuit / exit entry stored under `id` itself
+    may be refreshed.  (`LastKeptExcept k`: every entry afterwards not stored under `k` stems from an entry with the same
+    key and the same `last_activity`.)  So traffic of another circuit through the same node or from the same neighbour
+    never keeps an abandoned circuit's entries alive.  Relay entries created by `on_created` in the local path are new
+    routes and not covered by this statement. -/
+theorem cell_refreshes_only_its_circuit (c : Cfg) (s : Node) (id : Nat) (early plain ok : Bool) (body : Body) :
+    (∀ nr, s.relays.get id = some nr →
+      LastKeptExcept nr.other s.relays (s.step c (.cell id early plain ok body)).relays ∧
+      (s.step c (.cell id early plain ok body)).circuits = s.circuits ∧
+      (s.step c (.cell id early plain ok body)).exits = s.exits) ∧
+    (s.relays.get id = none →
+      LastKeptExcept id s.circuits (s.step c (.cell id early plain ok body)).circuits ∧
+      LastKeptExcept id s.exits (s.step c (.cell id early plain ok body)).exits) :=
+  ⟨fun nr hn => onCell_relay_touches s id early plain ok body nr hn,
+   fun hn => onCell_local_touches s id early plain ok body hn⟩
+
 /-- the same over any stretch of time in which only the node's own timers run (sweeps, cache timeouts, pings):
     no `last_activity` changes, so together with `circuit_reclaimed_within_bound` an originator that receives nothing
     from `t₀` on has dropped its ready circuit by `t₀ + inactive + period + delay` (example `silentPeer` below). -/
@@ -303,6 +321,16 @@ example : ((reach demoCfg 0 (demoEvs ++ [(14, .destroy 5 1 true), (18, .outside 
            (reach demoCfg 0 (demoEvs ++ [(14, .destroy 5 1 false)])).outs.contains (Out.destroy 3 6),
            (reach demoCfg 0 (demoEvs ++ [(14, .destroy 5 2 true), (19, .outside 0)])).relays.count)
           = (2, 0, true, false, 2) := by decide +kernel
+
+/-- non-vacuity of `cell_refreshes_only_its_circuit`: the node of `demoEvs` relays a second circuit (ids 8/9, same
+    neighbours 1 and 3); cells of the second circuit at times 20..40 do not keep the first circuit's routes (5/6, last
+    activity 12/13): at time 40 only the second pair is left -/
+example : ((reach demoCfg 0 (demoEvs ++
+              [(14, .cell 8 false true true (.create 1)), (14, .cell 8 true false true (.extend 78 9 3 true)),
+               (14, .cell 9 false true true (.created 78 true none)),
+               (20, .cell 8 false false true .junk), (26, .cell 9 false false true .junk),
+               (32, .cell 8 false false true .junk), (38, .cell 9 false false true .junk), (40, .outside 0)])).relays.filter
+              (fun p => !p.2.gone)).map (·.1) = [8, 9] := by decide +kernel
 
 example : 0 < Gen.cfg.period := by decide
 
